@@ -280,6 +280,18 @@ Definition create_collection (db : sdb) (name : str) : sdb :=
   | None => mkSdb (s_cols db ++ [(name, s_colctr db + 1)]) (s_colctr db + 1) (s_clients db) (s_dts db) (s_ops db)
   end.
 
+(* ResetCollection: PurgeCollection (operations, snapshots, datatypes and clients carrying the collection's number; the
+   delete of the collection document itself filters its name by the number and matches nothing), drop of the user
+   collection, then CreateCollection — which finds the collection document still there and keeps its number *)
+Definition reset_collection (db : sdb) (name : str) : sdb :=
+  match alookup str_eqb name (s_cols db) with
+  | None => create_collection db name
+  | Some n => mkSdb (s_cols db) (s_colctr db)
+                    (filter (fun c => negb (N.eqb (snd c) n)) (s_clients db))
+                    (filter (fun d => negb (N.eqb (dd_col d) n)) (s_dts db))
+                    (filter (fun o => negb (N.eqb (od_col o) n)) (s_ops db))
+  end.
+
 Definition process_client (db : sdb) (colname cuid : str) : sdb * option rpc_err :=
   match alookup str_eqb colname (s_cols db) with
   | None => (db, Some NoCollection)
